@@ -66,7 +66,7 @@ CLAIMS["C11"] = (
     "Solver verdict, over all server app ids and expected ids, that Skip never requests a section and leaves it absent, "
     "Try + failure leaves the rest intact, Enforce + failure fails the query with that failure's kind, and BadGame <=> "
     "checking on and the server id is none of the expected ids - for all 9 Valve toggle pairs x 4 section outcomes.",
-    "Trusted: hooks H3/H5. Outside: Unreal 2 toggles (encoding_rs not encodable within reach), sections with players/rules "
+    "Trusted: hooks H3/H5. Unreal 2: 4 (quick) + 4 (thorough) toggle/outcome instances. Outside: sections with players/rules "
     "(C02), retries.",
     "DESIGN.md §4 C11")
 CLAIMS["C02"] = (
@@ -116,6 +116,15 @@ CLAIMS["C04"] = (
     "player-section harnesses exist but only fit the thorough tier's time cap (or exceed it).",
     "Trusted: hooks H3-H5 (map model), listed stubs. Concrete reply texts. See bounds.outside for what is not reached.",
     "DESIGN.md §4 C04")
+
+CLAIMS["C06"] = (
+    "Solver verdict that the Unreal 2 string decoder returns exactly the characters of Latin-1 and UCS-2 strings for "
+    "representative length-byte values (incl. the colour-escape value), strips colour escapes, and that server info, "
+    "players (bot iff ping 0, all numeric fields symbolic, two datagrams) and mutators/rules (repeated keys) are decoded "
+    "without loss or addition.",
+    "Trusted: reference decoders replacing encoding_rs::Encoding::decode (validated natively), hooks H3/H4. Concrete "
+    "string contents.",
+    "DESIGN.md §4 C06")
 
 ALL = ["C%02d" % i for i in range(1, 21)]
 
